@@ -272,8 +272,13 @@ BuildR(i, Hd, App, acc) == IF i = 0 THEN acc
 \* F: applied spatial force per body, in Ground, torque and force at the body origin (integers);
 \* q2, u2: a second set of coordinates and speeds per mobilizer -- the targets of the fitting operations;
 \* tasks: a list of task frames [b, st, f, T]: body (0 = Ground, repeats allowed), station in the body frame, and an
-\* integer force f / torque T applied there (in Ground) for the transpose operators
-Eval(dyn, ud, F, q2, u2, tasks) ==
+\* integer force f / torque T applied there (in Ground) for the transpose operators;
+\* cons: constraints [type, b1, b2, ...] whose errors are polynomial in the kinematics:
+\*   "pip"    PointInPlane: plane fixed in body b1 (normal n, height h), point st of body b2:  perr = n . (p_S - p_B1o) - h
+\*   "cang"   ConstantAngle: axis a1 fixed in b1, axis a2 fixed in b2:                          perr = a1 . a2 - cosine
+\*   "cspeed" ConstantSpeed: speed k of mobilizer b1 held at s (nonholonomic):                 verr = u - s
+\* velocity and acceleration errors are the time derivatives, written out with the bodies' w, v, aw, a
+Eval(dyn, ud, F, q2, u2, tasks, cons) ==
   LET X == TLCEval(Poses)
       Vu == TLCEval(Vels(X, u, ZeroU))
       Bu == BodyV(X, Vu)
@@ -300,6 +305,44 @@ Eval(dyn, ud, F, q2, u2, tasks) ==
       Hd == TLCEval([b \in 1..N |-> [f |-> FSa[b].f, t |-> VAdd(FSa[b].t, Cross(ComG(b, X), FSa[b].f))]])
       App == TLCEval([b \in 1..N |-> [f |-> Fb[b].f, t |-> VAdd(Fb[b].t, Cross(X[b].p, Fb[b].f))]])
       RO == TLCEval(BuildR(N, Hd, App, [b \in 1..N |-> WZero]))
+      \* ---- constraints
+      NC == Len(cons)
+      BodyK(K, b) == IF b = 0 THEN GroundV ELSE K[b]
+      BodyR(b) == IF b = 0 THEN Ident ELSE X[b].R
+      BodyP(b) == IF b = 0 THEN VZero ELSE X[b].p
+      AxisV(a) == << Red(a.n[1], a.e), Red(a.n[2], a.e), Red(a.n[3], a.e) >>
+      \* errors of constraint c for body kinematics K (records w, v, aw, a per body), speeds uu and speed derivatives udd
+      ConsErr(c, K, uu, udd) ==
+        CASE c.type = "pip" ->
+               LET B == BodyK(K, c.b1)  Fk == BodyK(K, c.b2)
+                   n == MV(BodyR(c.b1), AxisV(c.n))
+                   rS == MV(BodyR(c.b2), VI(c.st[1], c.st[2], c.st[3]))           \* station offset from the follower's origin
+                   r == VSub(VAdd(BodyP(c.b2), rS), BodyP(c.b1))
+                   vS == VAdd(Fk.v, Cross(Fk.w, rS))
+                   aS == VAdd(Fk.a, VAdd(Cross(Fk.aw, rS), Cross(Fk.w, Cross(Fk.w, rS))))
+                   nd == Cross(B.w, n)
+                   ndd == VAdd(Cross(B.aw, n), Cross(B.w, nd))
+                   rd == VSub(vS, B.v)
+                   rdd == VSub(aS, B.a)
+               IN [perr |-> RSub(Dot(n, r), R(c.h)),
+                   verr |-> RAdd(Dot(nd, r), Dot(n, rd)),
+                   aerr |-> RAdd(RAdd(Dot(ndd, r), RMul(R(2), Dot(nd, rd))), Dot(n, rdd))]
+          [] c.type = "cang" ->
+               LET B == BodyK(K, c.b1)  Fk == BodyK(K, c.b2)
+                   b == MV(BodyR(c.b1), AxisV(c.a1))  f == MV(BodyR(c.b2), AxisV(c.a2))
+                   bd == Cross(B.w, b)  fd == Cross(Fk.w, f)
+                   bdd == VAdd(Cross(B.aw, b), Cross(B.w, bd))  fdd == VAdd(Cross(Fk.aw, f), Cross(Fk.w, fd))
+               IN [perr |-> RSub(Dot(b, f), Red(c.cosn, c.cose)),
+                   verr |-> RAdd(Dot(bd, f), Dot(b, fd)),
+                   aerr |-> RAdd(RAdd(Dot(bdd, f), RMul(R(2), Dot(bd, fd))), Dot(b, fdd))]
+          [] c.type = "cspeed" ->
+               [perr |-> Zero, verr |-> R(uu[c.b1][c.k] - c.s), aerr |-> R(udd[c.b1][c.k])]
+      ConsAt0 == TLCEval([k \in 1..NC |-> ConsErr(cons[k], Vu, u, ZeroU)])          \* the state's errors; aerr for udot = 0
+      ConsAtUd == TLCEval([k \in 1..NC |-> ConsErr(cons[k], Va, u, ud)])
+      \* G, one row per constraint: the velocity error is affine in u, its linear part column by column
+      VerrZero == TLCEval([k \in 1..NC |-> ConsErr(cons[k], Vels(X, ZeroU, ZeroU), ZeroU, ZeroU).verr])
+      G == TLCEval([k \in 1..NC |-> TLCEval([j \in 1..ND |->
+              RSub(ConsErr(cons[k], Vels(X, UnitU(Dofs[j]), ZeroU), UnitU(Dofs[j]), ZeroU).verr, VerrZero[k])])])
       \* the SAME model at the second coordinate / speed set (the real State object is re-used for it)
       X2 == TLCEval(PosesQ(q2))
       V2 == TLCEval(VelsQ(X2, q2, u2, ZeroU))
@@ -331,6 +374,10 @@ Eval(dyn, ud, F, q2, u2, tasks) ==
       reactF |-> IF dyn THEN [b \in 1..N |-> LET w == WShift(RO[b], X[b].pF) IN [t |-> VNeg(w.t), f |-> VNeg(w.f)]] ELSE <<>>,
       \* pose and velocity of M in F (expressed in F) for the coordinates q2 and speeds u2: what a mobilizer fitted to
       \* them must reproduce
+      cons |-> [k \in 1..NC |-> [perr |-> ConsAt0[k].perr, verr |-> ConsAt0[k].verr, aerr0 |-> ConsAt0[k].aerr, aerr |-> ConsAtUd[k].aerr]],
+      G |-> G,
+      \* the acceleration error is affine in udot with the same G:  aerr(ud) = aerr(0) + G ud   (identity of the spec)
+      aerrAffine |-> \A k \in 1..NC : ConsAtUd[k].aerr = RAdd(ConsAt0[k].aerr, SumRS(TLCEval([j \in 1..ND |-> RMul(G[k][j], R(ud[Dofs[j][1]][Dofs[j][2]]))]), ND)),
       X2 |-> [b \in 1..N |-> [R |-> X2[b].R, p |-> X2[b].p]],
       V2 |-> [b \in 1..N |-> [w |-> V2[b].w, v |-> V2[b].v]],
       comp |-> [b \in 1..N |-> Comp(b)],
